@@ -44,6 +44,7 @@ type AttemptPlan struct {
 	IdleFor        time.Duration
 	SlowHandler    time.Duration // > 0: one handler call of the attempt takes this long (fake clock) before it returns
 	ErrWithTable   bool          // a failing table lookup returns a well-formed table together with its error
+	Checkpoints    bool          // the handler records its progress on the Streamer it is called by: SetBinlogPosition(tx.NextPosition) inside the callback
 	SkipRefused    bool          // the application skips the transaction its handler refused in the previous attempt: SetBinlogPosition(refused.NextPosition)
 	HandshakeCut   int           // handshake-fin: bytes of the greeting that still arrive
 	ErrorCalls     int           // how many times Error() is called after Stream returned (>=1)
@@ -256,6 +257,15 @@ func (r *Run) handler(tx *gobinlog.Transaction) error {
 	r.calls = append(r.calls, call)
 	if r.att != nil {
 		r.att.Calls = append(r.att.Calls, call)
+	}
+	if tx != nil && r.att != nil && r.att.Plan.Checkpoints && !r.att.Plan.EnvPanic && r.free == nil {
+		// legal: the position is an atomic value; Stream stores its own position when
+		// it returns, so the call changes nothing that outlives the attempt
+		st := r.streamer
+		np := tx.NextPosition
+		r.mu.Unlock()
+		st.SetBinlogPosition(np)
+		r.mu.Lock()
 	}
 	if r.sc.Scribble && tx != nil {
 		call.ScribbleNote = scribble(tx, call.Snap)
